@@ -190,6 +190,85 @@ fn gaussian_cases(rng: &mut Rng, ncases: usize) {
   }
 }
 
+
+/// code paths outside the main model: slices shorter / longer than the grid, all-zero slices, an explicit zero norm,
+/// empty grids, empty delay lists; every call under catch_unwind
+fn edge_cases(rng: &mut Rng) {
+  let one = |label: &str, xs: (f64, f64, usize), ys: (f64, f64, usize), f: Vec<C>, g: Vec<C>, tau: f64, norm: Option<f64>, taus: Vec<f64>| {
+    let sp = space(xs, ys);
+    let (fv, gv) = (f.clone(), g.clone());
+    let single = guarded(move || hom_rate(sp, &fv, &gv, tau * S, norm));
+    let (fv, gv, tv) = (f.clone(), g.clone(), taus.clone());
+    let series = guarded(move || hom_rate_series(sp, &fv, &gv, tv.iter().map(|t| *t * S)));
+    emit(json!({
+      "kind": "edge", "label": label, "cols": xs.2, "rows": ys.2, "xs": [fx(xs.0), fx(xs.1)], "ys": [fx(ys.0), fx(ys.1)],
+      "fre": fxs(&f.iter().map(|z| z.re).collect::<Vec<_>>()), "fim": fxs(&f.iter().map(|z| z.im).collect::<Vec<_>>()),
+      "gre": fxs(&g.iter().map(|z| z.re).collect::<Vec<_>>()), "gim": fxs(&g.iter().map(|z| z.im).collect::<Vec<_>>()),
+      "tau": fx(tau), "norm": norm.map(fx), "taus": fxs(&taus),
+      "single": res(single),
+      "series": match series { Ok(v) => json!(fxs(&v)), Err(p) => json!({"panic": p}) },
+    }));
+  };
+  for (cols, rows) in [(2usize, 2usize), (3, 2), (1, 1), (4, 3)] {
+    let n = cols * rows;
+    let xs = (1.0, 3.0, cols);
+    let ys = (2.0, 5.0, rows);
+    let mk = |rng: &mut Rng, k: usize| -> Vec<C> { (0..k).map(|_| C::new(dy(rng), dy(rng))).collect() };
+    let tau = dyadic_tau(rng);
+    let taus = vec![0.0, tau];
+    let (f, g) = (mk(rng, n), mk(rng, n));
+    one("exact", xs, ys, f.clone(), g.clone(), tau, None, taus.clone());
+    one("f_short", xs, ys, f[..n - 1].to_vec(), g.clone(), tau, None, taus.clone());
+    one("g_short", xs, ys, f.clone(), g[..n - 1].to_vec(), tau, None, taus.clone());
+    one("both_short_empty_delays", xs, ys, f[..n - 1].to_vec(), g[..n - 1].to_vec(), tau, None, vec![]);
+    one("f_long", xs, ys, mk(rng, n + 3), g.clone(), tau, None, taus.clone());
+    one("g_long", xs, ys, f.clone(), mk(rng, n + 2), tau, None, taus.clone());
+    one("f_zero", xs, ys, vec![C::new(0.0, 0.0); n], g.clone(), tau, None, taus.clone());
+    one("both_zero", xs, ys, vec![C::new(0.0, 0.0); n], vec![C::new(0.0, 0.0); n], tau, None, taus.clone());
+    one("g_zero", xs, ys, f.clone(), vec![C::new(0.0, 0.0); n], tau, None, taus.clone());
+    one("norm_zero", xs, ys, f.clone(), f.clone(), 0.0, Some(0.0), taus.clone());
+    one("norm_zero_g_zero", xs, ys, f.clone(), vec![C::new(0.0, 0.0); n], tau, Some(0.0), taus.clone());
+    one("empty_delays", xs, ys, f.clone(), g.clone(), tau, None, vec![]);
+  }
+  // grids without points
+  one("empty_grid_cols0", (1.0, 3.0, 0), (2.0, 5.0, 3), vec![], vec![], 0.5, None, vec![0.0, 0.5]);
+  one("empty_grid_rows0", (1.0, 3.0, 2), (2.0, 5.0, 0), vec![C::new(1.0, 0.5)], vec![], 0.5, None, vec![0.0]);
+}
+
+
+/// exact non-zero-delay cases (see coq/Model/C10_Pyth.v): n x n grid, signal axis x0 + s h, idler axis x0 + k h + r i h,
+/// delay m0 * atan(4/3) / h; dyadic amplitudes
+fn pyth_cases(rng: &mut Rng, ncases: usize) {
+  let phi0 = (4.0f64 / 3.0).atan();
+  for case in 0..ncases {
+    let n = 2 + case % 3;
+    let k = [0i64, 0, 1, -1, 2][rng.below(5)];
+    let r = [1i64, 1, 2][rng.below(3)];
+    let m0 = [1i64, 2, -1, 3, -2][rng.below(5)];
+    let h = [0.5, 1.0, 2.0, 0.25][rng.below(4)];
+    let x0 = (rng.below(64) as f64) / 8.0;
+    let xs = (x0, x0 + (n as f64 - 1.0) * h, n);
+    let y0 = x0 + k as f64 * h;
+    let ys = (y0, y0 + r as f64 * ((n as f64 - 1.0) * h), n);
+    let tau = m0 as f64 * phi0 / h;
+    let f: Vec<C> = (0..n * n).map(|_| C::new(dy(rng), dy(rng))).collect();
+    let g: Vec<C> = if k == 0 && r == 1 && case % 2 == 0 { transpose(&f, n) } else { (0..n * n).map(|_| C::new(dy(rng), dy(rng))).collect() };
+    if f.iter().all(|z| z.norm_sqr() == 0.0) {
+      continue;
+    }
+    let sp = space(xs, ys);
+    let (fv, gv) = (f.clone(), g.clone());
+    let rate = guarded(move || hom_rate(sp, &fv, &gv, tau * S, None));
+    emit(json!({
+      "kind": "pyth", "n": n, "k": k, "r": r, "m0": m0, "h": fx(h), "x0": fx(x0), "tau": fx(tau),
+      "xs": [fx(xs.0), fx(xs.1)], "ys": [fx(ys.0), fx(ys.1)], "cols": n, "rows": n,
+      "fre": fxs(&f.iter().map(|z| z.re).collect::<Vec<_>>()), "fim": fxs(&f.iter().map(|z| z.im).collect::<Vec<_>>()),
+      "gre": fxs(&g.iter().map(|z| z.re).collect::<Vec<_>>()), "gim": fxs(&g.iter().map(|z| z.im).collect::<Vec<_>>()),
+      "rate": res(rate),
+    }));
+  }
+}
+
 fn setup_cases(rng: &mut Rng, ncases: usize) {
   let list = setups();
   for case in 0..ncases {
@@ -259,6 +338,8 @@ pub fn run(args: &[String]) {
   let ngauss = arg_u64(args, 4, 6) as usize;
   let mut rng = Rng::new(seed);
   array_cases(&mut rng, ncases, max_side);
+  edge_cases(&mut rng);
+  pyth_cases(&mut rng, arg_u64(args, 5, 36) as usize);
   gaussian_cases(&mut rng, ngauss);
   setup_cases(&mut rng, nsetup);
 }
